@@ -339,8 +339,7 @@ class QUEST:
         # Parameters of characeristic equation (eq. 63)
         sigma = B.trace()
         Delta = np.linalg.det(S)
-        adjS = Delta*np.linalg.inv(S)
-        kappa = adjS.trace()
+        kappa = 0.5*(S.trace()**2 - (S@S).trace())     # Trace of the adjugate of S (valid for singular S too)
         ### Elements of characteristic polynomial (eq. 71)
         a = sigma**2 - kappa
         b = sigma**2 + z.T @ z
